@@ -110,7 +110,7 @@ int zzJacobi(const word a[], size_t n, const word b[], size_t m, void* stack)
 	register size_t s;
 	// переменные в stack
 	word* u = (word*)stack;
-	word* v = u + n;
+	word* v = u + MAX2(n, m);
 	stack = v + m;
 	// pre
 	ASSERT(wwIsValid(a, n));
@@ -157,7 +157,7 @@ int zzJacobi(const word a[], size_t n, const word b[], size_t m, void* stack)
 
 size_t zzJacobi_deep(size_t n, size_t m)
 {
-	return O_OF_W(n + m) + 
+	return O_OF_W(MAX2(n, m) + m) + 
 		utilMax(2, 
 			zzMod_deep(n, m), 
 			zzMod_deep(m, n));
